@@ -3,7 +3,7 @@
    tools/props/c18.py from Common/CTables.v).  Memory safety of ctraits.c as a whole is NOT a
    theorem here (no C semantics): it is searched for by sanitised execution. *)
 From Coq Require Import ZArith List Bool Lia.
-From TV Require Import Common.Harness Common.CTables C18.Model C18.Law C18.Proofs C18.Tuple.
+From TV Require Import Common.Harness Common.CTables C18.Model C18.Law C18.Proofs C18.Tuple C18.Deleg.
 Import ListNotations.
 Open Scope Z_scope.
 
@@ -63,6 +63,15 @@ Theorem tuple_validation_neutral :
     net (snd (tuple_check tv items)) a = owned tv (fst (tuple_check tv items)) a.
 Proof. exact tuple_check_neutral. Qed.
 Print Assumptions tuple_validation_neutral.
+
+(* delegated reads through every delegate-name style: the resolved name is a new reference released after
+   the lookup, the delegate is held during the call; only the reference returned to the caller remains *)
+Theorem delegated_read_neutral :
+  forall st name prefix fresh delegate found a,
+    net (snd (getattr_delegate st name prefix fresh delegate found)) a
+    = match found with Some v => ind v a | None => 0 end.
+Proof. exact getattr_delegate_neutral. Qed.
+Print Assumptions delegated_read_neutral.
 
 (* general form of T3's obligations (instantiated on the regenerated tables at run time):
    any tables passing the boolean check make func_index terminate inside the searched table for
